@@ -148,6 +148,7 @@ func (p Plan) Validate(ctx context.Context, n int, pb ProgressBar) (err error) {
 	for i := 0; i < n; i++ {
 		g.Go(func() error {
 			for job := range in {
+				verifYield("validate.worker.job")
 				if err := job.candidate.source.Validate(job.file); err != nil {
 					job.candidate.seed.SetInvalid(true)
 					return err
@@ -165,6 +166,7 @@ loop:
 			// This is not a fileSeed, we have nothing to validate
 			continue
 		}
+		verifYield("validate.feeder")
 		select {
 		case <-ctx.Done():
 			interrupted = true
